@@ -9,6 +9,8 @@ import (
 	"strings"
 
 	"github.com/openGemini/openGemini/engine"
+	"github.com/openGemini/openGemini/lib/encoding"
+	"github.com/openGemini/openGemini/lib/util"
 	"github.com/openGemini/openGemini/lib/util/lifted/influx/influxql"
 	"github.com/openGemini/openGemini/lib/util/lifted/vm/protoparser/influx"
 
@@ -160,6 +162,34 @@ func runFile(c *hx.Ctx, r *hx.Rng, st *state) bool {
 	reopen := r.Bool()
 	op := fmt.Sprintf("file series=%s reopen=%v seed=%d", strings.Join(desc, "+"), reopen, r.U64()%1000000)
 	fail := ""
+	// The shard flushes in its own goroutines: an encoder panic there kills the process (the
+	// server crash of the property text) and the harness with it. Offer every float segment to
+	// the block encoder first, under recover; a block it cannot take is reported here and the
+	// shard is not asked to flush it.
+	for s := 0; s < nSeries && fail == ""; s++ {
+		for lo := 0; lo < len(want[s]) && fail == ""; lo += 1000 {
+			var seg []float64
+			for k := lo; k < lo+1000 && k < len(want[s]); k++ {
+				if cl := want[s][k].cells[1]; cl.ok {
+					seg = append(seg, math.Float64frombits(cl.f))
+				}
+			}
+			if len(seg) == 0 {
+				continue
+			}
+			var err error
+			perr := hx.Safe(func() { _, err = encoding.EncodeFloatBlock(util.Float64Slice2byte(seg), nil, st.ctx) })
+			if perr != "" || err != nil {
+				fail = fmt.Sprintf("float segment of series %d rows %d.. cannot be encoded: %s %v", s, lo, perr, err)
+			}
+		}
+	}
+	if fail != "" {
+		line := c.Emit(op, "err "+short(fail))
+		c.Case(opKey(op), true)
+		c.Violation(line, "file_roundtrip", short(fail))
+		return true
+	}
 	perr := hx.Safe(func() {
 		sh, err := engine.VerifOpenShard(dir, 1)
 		if err != nil {
